@@ -117,6 +117,10 @@ class Ctx:
             # the generated part of the development (gen/*.v) is regenerated from /repo's current tree before every proof check
             rc0, out0 = sh(['python3', os.path.join(ROOT, 'tools', 'extract_facts.py')])
             self.notes['extract_facts'] = out0.strip().split('\n')[-12:]
+            if rc0 != 0:
+                # the generated part of the development could not be regenerated from this tree: nothing below it is about this tree
+                self.checker_cmds.append('python3 tools/extract_facts.py  (FAILED)')
+                return False, 'tools/extract_facts.py failed on the current /repo tree (the model can not be regenerated from the source):\n' + out0[-3000:]
             # Props files print their assumptions when compiled: force their recompilation
             for pf in propfiles:
                 for ext in ('.vo', '.glob', '.vok', '.vos'):
